@@ -1822,7 +1822,14 @@ func c10EmitRepl(run *Run, c c10Case, resp c10ChildResp) {
 			nullsMulti = true
 		}
 	}
-	if !ok || resp.Unrep || tab.bad || !safe || !lselOK || nullsMulti {
+	alias := false
+	for _, rp := range c.Repls {
+		alias = alias || c10MayAlias(rp)
+	}
+	if alias {
+		run.Count("repl", "skipped-source-aliasing")
+	}
+	if !ok || resp.Unrep || tab.bad || !safe || !lselOK || nullsMulti || alias {
 		run.Count("repl", "skipped-domain")
 		run.Meta.Skipped++
 		return
@@ -1857,6 +1864,49 @@ func c10EmitRepl(run *Run, c c10Case, resp c10ChildResp) {
 	}
 	run.AddCase(fmt.Sprintf("(KRepl %s %s %s [%s] %s %s %s)", tab.coq(), coqStrList(ns), coqGvks(c10ClusterScoped(nodes, extra...)),
 		strings.Join(parts, "; "), orig, resp.Cls, after), c, changed)
+}
+
+// c10MayAlias: without a source delimiter, getReplacement returns the LIVE source node; a target
+// field that is (or contains, or lies inside) that node changes the value later targets receive.
+// The model copies the value once; such replacements are outside its domain. Conservative test on
+// the path texts: list selectors, indices and * are treated as matching anything.
+func c10MayAlias(rp c10Repl) bool {
+	if rp.Source == nil || rp.SourceValue != nil {
+		return false
+	}
+	if rp.Source.Options != nil && rp.Source.Options.Delimiter != "" {
+		return false
+	}
+	sp := rp.Source.FieldPath
+	if sp == "" {
+		sp = types.DefaultReplacementFieldPath
+	}
+	a := kutils.SmarterPathSplitter(sp, ".")
+	wild := func(p string) bool { return p == "*" || kyaml.IsIdxNumber(p) || kyaml.IsListIndex(p) }
+	for _, t := range rp.Targets {
+		fps := t.FieldPaths
+		if len(fps) == 0 {
+			fps = []string{types.DefaultReplacementFieldPath}
+		}
+		for _, fp := range fps {
+			b := kutils.SmarterPathSplitter(fp, ".")
+			n := len(a)
+			if len(b) < n {
+				n = len(b)
+			}
+			same := true
+			for i := 0; i < n; i++ {
+				if a[i] != b[i] && !wild(a[i]) && !wild(b[i]) {
+					same = false
+					break
+				}
+			}
+			if same {
+				return true
+			}
+		}
+	}
+	return false
 }
 
 func c10HasNull(n *kyaml.Node) bool {
